@@ -44,13 +44,7 @@ C_BIN = {
     'bdd_and': 'and', 'bdd_or': 'or', 'bdd_xor': 'xor', 'bdd_imp': 'implies', 'bdd_biimp': 'equiv',
 }
 C_TER = {'Cudd_bddIte', 'Cudd_zddIte', 'cuddZddIte', 'sylvan_ite', 'bdd_ite'}
-# quantifiers: (universal, index of the quantified node, index of the variable cube)
-C_QUANT = {
-    'Cudd_bddUnivAbstract': (True, 0, 1), 'Cudd_bddExistAbstract': (False, 0, 1),
-    'sylvan_forall': (True, 0, 1), 'sylvan_exists': (False, 0, 1),
-    'bdd_forall': (True, 0, 1), 'bdd_exist': (False, 0, 1),
-    '_forall_root': (True, 0, 1), '_exist_root': (False, 0, 1),
-}
+C_QUANT = cpyx.QUANT_SIG
 
 FRESH = {
     'Cudd_bddAnd', 'Cudd_bddOr', 'Cudd_bddXor', 'Cudd_bddXnor', 'Cudd_bddIte',
@@ -153,20 +147,7 @@ def bdd_alg(b):
     return alg
 
 
-def roles_of(e):
-    """(universal, operand supplying the variables, quantified operand, mode) or None."""
-    if e[0] == 'call' and e[1] in C_QUANT and len(e[2]) == 2:
-        fa, bi, ci = C_QUANT[e[1]]
-        body, cube = e[2][bi], e[2][ci]
-        if body[0] != 'arg':
-            return None
-        if cube[0] == 'arg':
-            return (fa, cube[1], body[1], 'cubeArg')
-        if (cube[0] == 'call' and cube[1] == '_dict_to_zdd' and len(cube[2]) == 1
-                and cube[2][0][0] == 'call' and cube[2][0][1] == 'support'
-                and cube[2][0][2] and cube[2][0][2][0][0] == 'arg'):
-            return (fa, cube[2][0][2][0][1], body[1], 'supportOf')
-    return None
+roles_of = cpyx.roles_of
 
 
 # ---------------------------------------------------------------------------
@@ -454,6 +435,37 @@ def check_C19(ctx):
             guards_assumed_false=t['guards'],
             quantifier_vars_mode={al: roles_of(out[1])[3] for al, out in t['rows']
                                   if out[0] == 'ret' and roles_of(out[1]) is not None})
+    # operator methods of the handles / `ite` of the managers
+    for tag, rows in data['operators'].items():
+        for qual, spelling, out in rows:
+            call = f'{tag}.{qual}'
+            ctx.count(f'{tag}:operator-method')
+            if out[0] != 'ret':
+                ctx.violation(f'{call}: not recognised by the reader / raises ({out[1]})',
+                              dict(backend=tag, method=qual, line=out[2],
+                                   tags=dict(call=call, symptom='unrecognised-branch')))
+                continue
+            e = out[1]
+            ar = cpyx.arity_of(spelling, _abc)
+            reported = set()
+            for bu, bv, bw in itertools.product((False, True), repeat=3):
+                ctx.case((tag, qual, bu, bv, bw))
+                U, V, W = (T if bu else F), (T if bv else F), (T if bw else F)
+                want = ref.apply(spelling, U, *([V] if ar >= 2 else []), *([W] if ar >= 3 else [])) == T
+                try:
+                    got = alg_eval(e, dict(u=bu, v=bv, w=bw), balg)
+                except NoMeaning as ex:
+                    ctx.violation(f'{call}: no assumed meaning for {ex}',
+                                  dict(backend=tag, method=qual, expr=fmt_expr(e), line=out[2],
+                                       tags=dict(call=call, symptom='no-meaning')))
+                    break
+                key = (bu,) + ((bv,) if ar >= 2 else ()) + ((bw,) if ar >= 3 else ())
+                if got != want and key not in reported:
+                    reported.add(key)
+                    ctx.violation(
+                        f'{call} on {key}: `{fmt_expr(e)}` gives {got}, dd.bdd.BDD.apply({spelling!r}) gives {want}',
+                        dict(backend=tag, method=qual, valuation=list(key), expr=fmt_expr(e), line=out[2],
+                             tags=dict(call=call, symptom='connective')))
     # reference traces
     covered = []
     npaths = 0
@@ -501,6 +513,7 @@ def check_C19(ctx):
                        'apply, explicit-path reference traces)',
                        'lean/DD/CWrap.lean (assumed meaning and reference behaviour of the C API)'],
         apply=summary,
+        operator_methods={tag: [q for q, _s, _o in rows] for tag, rows in data['operators'].items()},
         traces=dict(covered_methods=len(covered), paths=npaths, fingerprint=fp,
                     functions_per_file=data['nfuncs'],
                     without_node_events=data['irrelevant'],
